@@ -332,10 +332,44 @@ type lazyCase struct {
 	via   string
 	first int // which sharer makes the first call
 	errFi bool
+	raw   string // "" canonical body | "noncanon" boolean payload bytes 0xFF/0x80/0x02 | "longlen" three length bytes in the item header
 }
 
 func (lc lazyCase) id() string {
-	return fmt.Sprintf("%s/n=%d/%s/bad=%v/first=%d/errfirst=%v", lc.k.name, lc.n, lc.via, lc.bad, lc.first, lc.errFi)
+	id := fmt.Sprintf("%s/n=%d/%s/bad=%v/first=%d/errfirst=%v", lc.k.name, lc.n, lc.via, lc.bad, lc.first, lc.errFi)
+	if lc.raw != "" {
+		id += "/raw=" + lc.raw
+	}
+	return id
+}
+
+// rawVariant rewrites a canonical item encoding into an equivalent non-canonical one that the
+// decoder accepts: a decoded message keeps the bytes it was given, and nothing it does later
+// (decoding the body lazily, copying, serialising) may rewrite them.
+func rawVariant(body []byte, raw string) []byte {
+	if len(body) == 0 {
+		return body
+	}
+	nlb := int(body[0] & 3)
+	switch raw {
+	case "noncanon":
+		out := append([]byte(nil), body...)
+		for i := 1 + nlb; i < len(out); i++ {
+			out[i] = [4]byte{0xFF, 0x80, 0x02, 0x00}[(i-1-nlb)%4]
+		}
+		return out
+	case "longlen":
+		if nlb == 0 || nlb == 3 {
+			return body
+		}
+		var l uint32
+		for _, b := range body[1 : 1+nlb] {
+			l = l<<8 | uint32(b)
+		}
+		out := []byte{body[0]&^3 | 3, byte(l >> 16), byte(l >> 8), byte(l)}
+		return append(out, body[1+nlb:]...)
+	}
+	return body
 }
 
 // runLazyDecode: a message decoded from a frame and its re-stamped copies (made before
@@ -343,6 +377,7 @@ func (lc lazyCase) id() string {
 // them asks first and however often.
 func runLazyDecode(c *vfw.Ctx, lc lazyCase) {
 	body, _ := bodyOf(lc.k, lc.n)
+	body = rawVariant(body, lc.raw)
 	if lc.bad {
 		body = body[:len(body)-1]
 	}
@@ -360,6 +395,17 @@ func runLazyDecode(c *vfw.Ctx, lc lazyCase) {
 	}
 	sharers = append(sharers, sharers[1].WithSystemBytes([4]byte{4, 4, 4, 4})) // copy of a copy
 	f := sharers[lc.first%len(sharers)]
+	// what every sharer serialises to BEFORE anybody touched the lazily decoded body
+	serial := func(sh *hsms.DataMessage) []byte {
+		mb, _ := sh.Codec().MarshalBinary()
+		return append(append(append([]byte{}, sh.ToBytes()...), sh.AppendBodyTo(nil)...), mb...)
+	}
+	pre := make([][]byte, len(sharers))
+	for si, sh := range sharers {
+		if (si+lc.first)%2 == 0 { // half of them are first serialised only after the decode
+			pre[si] = serial(sh)
+		}
+	}
 	var it0 secs2.Item
 	var e0 error
 	if lc.errFi {
@@ -382,6 +428,24 @@ func runLazyDecode(c *vfw.Ctx, lc lazyCase) {
 			case !sameErr(err, e0) || !sameErr(de, e0) || !sameErr(cerr, e0):
 				bad = fmt.Sprintf("sharer %d round %d: Item()/DecodeErr() error differs from the first call's (%v vs %v)", si, round, err, e0)
 			}
+		}
+	}
+	for si, sh := range sharers {
+		post := serial(sh)
+		want := pre[si]
+		if want == nil {
+			// never serialised before the decode: the body part must be what the OTHER sharers had
+			want = post
+			if b0 := serial(sharers[(si+1)%len(sharers)]); bad == "" && !bytes.Equal(post[14:14+len(body)], b0[14:14+len(body)]) {
+				bad = fmt.Sprintf("sharer %d serialises a different body than sharer %d of the same message", si, (si+1)%len(sharers))
+			}
+		}
+		if bad == "" && !bytes.Equal(post, want) {
+			bad = fmt.Sprintf("sharer %d: ToBytes/AppendBodyTo/MarshalBinary changed after the body was decoded (first difference at byte %d): the message rewrote itself", si, firstDiffBytes(post, want))
+		}
+		// (for a body the library itself would produce, C03 also fixes WHAT it re-serialises to)
+		if bad == "" && lc.raw == "" && !bytes.Equal(post[14:14+len(body)], body) {
+			bad = fmt.Sprintf("sharer %d: the serialised body differs from the bytes the message was decoded from", si)
 		}
 	}
 	if bad == "" && lc.bad == (e0 == nil) {
@@ -433,6 +497,15 @@ func runLazyEncode(c *vfw.Ctx, k kind, n int) {
 	}
 }
 
+func firstDiffBytes(a, b []byte) int {
+	for i := 0; i < len(a) && i < len(b); i++ {
+		if a[i] != b[i] {
+			return i
+		}
+	}
+	return min(len(a), len(b))
+}
+
 func lazyCases(o gridOpt) []lazyCase {
 	var out []lazyCase
 	ks := append([]kind{emptyKind}, kinds...)
@@ -448,7 +521,18 @@ func lazyCases(o gridOpt) []lazyCase {
 					}
 					for first := 0; first < 6; first++ {
 						for _, ef := range []bool{false, true} {
-							out = append(out, lazyCase{k, n, bad, via, first, ef})
+							out = append(out, lazyCase{k, n, bad, via, first, ef, ""})
+						}
+					}
+					if !bad && n > 0 && k.cls != "empty" {
+						raws := []string{"longlen"}
+						if k.cls == "boolean" {
+							raws = []string{"longlen", "noncanon"}
+						}
+						for _, raw := range raws {
+							for first := 0; first < 2; first++ {
+								out = append(out, lazyCase{k, n, false, via, first, false, raw})
+							}
 						}
 					}
 				}
